@@ -113,8 +113,10 @@ Proof. cbv zeta. repeat split; vm_compute; reflexivity. Qed.
    any spelling the grammar's lNumber accepts that strconv.ParseFloat — a parameter of the model, fstep_okp — parses)
    keeps those whose value reached by inner is a number, float64 or json.Number alike, standing in that relation to the
    literal; for != the complement, so members from which inner reaches no number are kept (ctest / entry_test).  A negated
-   existence filter [?(!@ inner)] (NegFilt.v) keeps the members from which inner reaches nothing. *)
-From JP Require Import FiltParse CmpParse NegFilt FiltChain FiltAddr CmpAddr FiltChainAddr.
+   existence filter [?(!@ inner)] (NegFilt.v) keeps the members from which inner reaches nothing.  A filter over a query in
+   disjunctive form [?(b&&b...||b&&b...)] (QueryParse.v, QueryAddr.v; every b one of the three kinds above, no blanks) keeps
+   the members for which some conjunction has all its basic queries true (dnf_test). *)
+From JP Require Import FiltParse CmpParse NegFilt QueryParse FiltChain FiltAddr CmpAddr QueryAddr FiltChainAddr.
 Theorem C01_filter_retrieval : forall cfg parse_float regex_ok ffun afun regex_match,
   (forall f v w, small v -> ffun f v = Some w -> small w) ->
   (forall f l w, Forall small l -> afun f l = Some w -> small w) ->
@@ -152,4 +154,14 @@ Example C01_negated_filter_example :
   let path := [FN [RPlain (SDot [97%N])]] in
   fchain_path path = [36; 91; 63; 40; 33; 64; 46; 97; 41; 93]%N /\ forallb fstep_ok path = true /\
   map snd (nav_allf (fun _ => None) path ([], doc)) = [VObj [("b", VNum (num_of_Z 2))]; VNum (num_of_Z 3)]%string.
+Proof. cbv zeta. repeat split; vm_compute; reflexivity. Qed.
+
+Example C01_query_filter_example :
+  let pf := fun s : string => if String.eqb s "2" then Some (num_of_Z 2) else None in
+  let doc := VArr [VObj [("a", VNum (num_of_Z 1)); ("b", VNull)]; VObj [("a", VNum (num_of_Z 3))]; VObj [("c", VNull)]; VObj [("a", VNum (num_of_Z 5)); ("b", VNull)]]%string in
+  let a := [RPlain (SDot [97%N])] in let b := [RPlain (SDot [98%N])] in let c := [RPlain (SDot [99%N])] in
+  let path := [FQ [[BC a OGt [50%N]; BN b]; [BE c]]] in
+  fchain_path path = [36; 91; 63; 40; 64; 46; 97; 62; 50; 38; 38; 33; 64; 46; 98; 124; 124; 64; 46; 99; 41; 93]%N /\
+  forallb fstep_ok path = true /\ forallb (fstep_okp pf) path = true /\
+  map snd (nav_allf pf path ([], doc)) = [VObj [("a", VNum (num_of_Z 3))]; VObj [("c", VNull)]]%string.
 Proof. cbv zeta. repeat split; vm_compute; reflexivity. Qed.
